@@ -225,11 +225,14 @@ static int do_ftruncate(int fd, off_t l) {
 int __wrap_ftruncate(int fd, off_t l) { return do_ftruncate(fd, l); }
 int __wrap_ftruncate64(int fd, off_t l) { return do_ftruncate(fd, l); }
 
+int env_bad_closes = 0;   /* close() calls of the code under test on a descriptor that is not open: it no longer owns that number */
 int __wrap_close(int fd) {
     if(sched_active) sched_point();
     if(env_on && role_of(fd)) tr(-1, 'c', role_of(fd), fd, 0, 0, 0);
     if(fd >= 0 && fd < MAXFD) __atomic_store_n(&roles[fd], 0, __ATOMIC_RELAXED);
-    return __real_close(fd);
+    int r = __real_close(fd);
+    if(r < 0 && errno == EBADF) __atomic_fetch_add(&env_bad_closes, 1, __ATOMIC_RELAXED);
+    return r;
 }
 
 static int do_mkstemp(char *tmpl) {
